@@ -611,6 +611,14 @@ Proof.
   rewrite concat_app, IH. reflexivity.
 Qed.
 
+(* stated on `text`/`encs` so that rewriting does not depend on how the
+   implicit type arguments of map/concat are displayed (uchar = bytes = list N) *)
+Lemma encs_concat : forall css : list text, concat (map encs css) = encs (concat css).
+Proof.
+  induction css as [|l t IH]; cbn [map concat]; [reflexivity|].
+  unfold encs in *. rewrite concat_app, IH. reflexivity.
+Qed.
+
 Lemma concat_repeat_single : forall {A} (x : A) n, concat (repeat [x] n) = repeat x n.
 Proof. intros A x n. induction n; cbn [repeat concat]; [reflexivity|]. rewrite IHn. reflexivity. Qed.
 
@@ -711,7 +719,7 @@ Proof.
   intros p css Hf H. unfold fit_chunks, cfit_chunks.
   assert (Hcc : Forall uchar_ok (concat css)) by (apply Forall_concat_; assumption).
   assert (Hn : char_starts (concat (map encs css)) = length (concat css)).
-  { unfold encs. rewrite (concat_concat_map (A:=byte) css). apply cs_encs. assumption. }
+  { rewrite encs_concat. apply cs_encs. assumption. }
   assert (Hfill : forall k, repeat (p_fill p) k = map encs (repeat [p_fill p] k)).
   { intros k. rewrite map_repeat_. unfold encs. cbn [concat]. rewrite app_nil_r. reflexivity. }
   assert (Hpad : forall k, Forall (Forall uchar_ok) (repeat [p_fill p] k)).
@@ -731,7 +739,7 @@ Proof.
   { unfold padded_b, padded_c. destruct (p_min p) as [m|]; [|split; [reflexivity|assumption]].
     rewrite Hn. destruct (p_right p).
     - split.
-      + rewrite map_app, <- Hfill. cbn [map]. unfold encs. rewrite (concat_concat_map (A:=byte) css). reflexivity.
+      + rewrite map_app, <- Hfill. cbn [map]. rewrite encs_concat. reflexivity.
       + apply Forall_app. split; [apply Hpad|]. constructor; [assumption|constructor].
     - split.
       + rewrite map_app, <- Hfill. reflexivity.
@@ -822,7 +830,7 @@ Theorem pattern_meaning : forall acc t, chars_ok t -> all_widths_ok t ->
   run_pattern acc (bytes_of t) = Some (encs (meaning t)).
 Proof.
   intros acc t H W. rewrite run_pattern_bytes. destruct (chunks_aligned t H) as [E F].
-  rewrite E. unfold encs. rewrite (concat_concat_map (A:=byte) (cchunks_of t)), concat_cchunks_of by assumption. reflexivity.
+  rewrite E, encs_concat, concat_cchunks_of by assumption. reflexivity.
 Qed.
 
 (* valid UTF-8 is preserved even when some group has min > max *)
@@ -831,7 +839,7 @@ Theorem never_splits_a_char : forall acc t, chars_ok t ->
 Proof.
   intros acc t H. destruct (chunks_aligned t H) as [E F].
   exists (concat (cchunks_of t)). split; [apply Forall_concat_; assumption|].
-  rewrite run_pattern_bytes, E. unfold encs. rewrite (concat_concat_map (A:=byte) (cchunks_of t)). reflexivity.
+  rewrite run_pattern_bytes, E, encs_concat. reflexivity.
 Qed.
 
 Lemma meaning_cchunks : forall css, meaning (cchunks css) = concat css.
